@@ -207,6 +207,22 @@ theorem enosys_deviation_unreachable :
       getInfoDefaultErrors t.goarch = true := by
   decide +kernel
 
+/-- **Every constant of `internal/unix` that bears the name of a kernel macro has the kernel's value, on every
+    target** — whatever constants the package declares: each `(name, value)` of each target is compared with
+    the macro of the same name among *all* object-like `SECCOMP_*` / `PR_*` macros of the installed
+    linux/seccomp.h and linux/prctl.h (`Gen.uapiAll`, found with `gcc -dM -E` and evaluated by a C program).
+    A constant added later (an alias such as `SECCOMP_RET_KILL`, a new flag) is covered without touching the
+    pairing list above.  (`ENOSYS`/`EPERM` are errno values and handled by `consts_equal_uapi`.) -/
+theorem same_named_constants_equal_uapi :
+    ∀ t ∈ targets, ∀ kv ∈ t.unix, ∀ u ∈ uapiAll, u.1 = kv.1 → u.2 = kv.2 := by
+  decide +kernel
+
+/-- non-vacuity: the macro list is not a handful of names, and it contains the constants the package uses -/
+theorem uapiAll_covers :
+    100 ≤ uapiAll.length ∧
+    ∀ p ∈ pairing, p.1 ≠ "EPERM" → (uapiAll.lookup p.1).isSome = true := by
+  decide +kernel
+
 /-! ## the model's constants are the source's constants -/
 
 /-- **The constants hard-wired in the executable model are those of the source.**  `actKillThread` …
